@@ -2,6 +2,7 @@ import Driver.Util
 import DiskfsModel.Model.Ext4.ReaderCfg
 import DiskfsModel.Model.Ext4.SparseRead
 import DiskfsModel.Model.Ext4.InodeLoc
+import Driver.Ext4Img
 namespace Driver.Ext4Ref
 open Diskfs Driver Diskfs.Ext4.Reader
 
@@ -155,7 +156,7 @@ def inoloct (args : List String) : String :=
 
 end Driver.Ext4Ref
 
-def main : IO Unit := Driver.runLoop fun op args =>
+def pureOp (op : String) (args : List String) : String :=
   match op with
   | "ext4ref.flatten" => Driver.Ext4Ref.flatten args
   | "ext4ref.dirlinear" => Driver.Ext4Ref.dirlinear args
@@ -168,3 +169,24 @@ def main : IO Unit := Driver.runLoop fun op args =>
   | "ext4ref.inoloc" => Driver.Ext4Ref.inoloc args
   | "ext4ref.inoloct" => Driver.Ext4Ref.inoloct args
   | _ => "unknown-op"
+
+/-- the ops that read a reference image from a file run in IO and share the opened image -/
+partial def loop (cache : IO.Ref (Option Driver.Ext4Img.Cache)) (h out : IO.FS.Stream) : IO Unit := do
+  let line ← h.getLine
+  if line.isEmpty then return ()
+  let line := (line.dropEndWhile (fun c => c == '\n' || c == '\r')).toString
+  match line.splitOn "\t" with
+  | "case" :: id :: op :: args =>
+    let r ← match op with
+      | "ext4ref.imgwalk" => Driver.Ext4Img.imgwalk cache args
+      | "ext4ref.imgfile" => Driver.Ext4Img.imgfile cache args
+      | _ => pure (pureOp op args)
+    out.putStrLn s!"model\t{id}\t{r}"
+  | _ => pure ()
+  loop cache h out
+
+def main : IO Unit := do
+  let cache ← IO.mkRef (none : Option Driver.Ext4Img.Cache)
+  let out ← IO.getStdout
+  loop cache (← IO.getStdin) out
+  out.flush
